@@ -11,6 +11,8 @@
                                           `rowadr[w,a] .. rowadr[w,a] + rownnz[w,a]` (by `rfl`: no other actuator's address is read);
     * `actuator_velocity_slot_independent`  for ALL pairs of allocations (any two task orders of `_transmission`) that store the same
                                           row content at their respective addresses, the kernel writes the same value.
+    * `qfrc_actuator_own_row`, `qfrc_actuator_slot_independent`  the same two statements for `_qfrc_actuator`, the scatter of the actuator
+                                          force through the same rows: the task's list of atomic adds (cells and values) is slot independent.
   (Seeded change C11c took the row end from the NEXT actuator's `rowadr`.)
 -/
 import MjwVerif.Gen.Forward
@@ -57,6 +59,37 @@ theorem actuator_velocity_slot_independent {K : Type} [Scalar K] (qvel_in : Int 
       colind' w (rowadr' w a + k) = colind w (rowadr w a + k) ∧ moment' w (rowadr' w a + k) = moment w (rowadr w a + k)) :
     _actuator_velocity qvel_in rownnz rowadr' colind' moment' out w a = _actuator_velocity qvel_in rownnz rowadr colind moment out w a := by
   rw [actuator_velocity_own_row, actuator_velocity_own_row, rowDot_content _ _ _ _ _ _ _ _ h]
+
+/-! ### the other consumer of the same rows: `_qfrc_actuator` (scatter of the actuator force through its moment row) -/
+
+/-- atomic adds of `moment[adr + k] · force` into the dof cells `colind[adr + k]`, `k < n`, in index order -/
+def rowScatter {K : Type} [Scalar K] (w : Int) (n adr : Int) (colind : Int → Int) (moment : Int → K) (force : K) : List (Write K) :=
+  (List.range n.toNat).foldl (fun (ws : List (Write K)) (k : Nat) =>
+    ws ++ [(Write.mk "qfrc_actuator_out" [w, colind (adr + Int.ofNat k)] (WVal.f (moment (adr + Int.ofNat k) * force)) WKind.aadd : Write K)]) []
+
+theorem qfrc_actuator_own_row {K : Type} [Scalar K] (moment_rownnz_in moment_rowadr_in moment_colind_in : Int → Int → Int)
+    (actuator_moment_in actuator_force_in qfrc_actuator_out : Int → Int → K) (w a : Int) :
+    _qfrc_actuator moment_rownnz_in moment_rowadr_in moment_colind_in actuator_moment_in actuator_force_in qfrc_actuator_out w a
+      = rowScatter w (moment_rownnz_in w a) (moment_rowadr_in w a) (moment_colind_in w) (actuator_moment_in w) (actuator_force_in w a) := by
+  simp [_qfrc_actuator, rowScatter, forRange]
+
+/-- **qfrc_actuator_slot_independent**: the list of atomic adds a task contributes to `qfrc_actuator` (cells AND values, in order) is the
+    same for any two allocations of the moment rows that hold the same row content — so the accumulated generalized force does not
+    depend on the task order of `_transmission`. -/
+theorem qfrc_actuator_slot_independent {K : Type} [Scalar K] (rownnz rowadr rowadr' colind colind' : Int → Int → Int)
+    (moment moment' force out : Int → Int → K) (w a : Int)
+    (h : ∀ k : Int, 0 ≤ k → k < rownnz w a →
+      colind' w (rowadr' w a + k) = colind w (rowadr w a + k) ∧ moment' w (rowadr' w a + k) = moment w (rowadr w a + k)) :
+    _qfrc_actuator rownnz rowadr' colind' moment' force out w a = _qfrc_actuator rownnz rowadr colind moment force out w a := by
+  rw [qfrc_actuator_own_row, qfrc_actuator_own_row]
+  unfold rowScatter
+  apply foldl_range_congr
+  intro k hk ws
+  have hk' : (Int.ofNat k) < rownnz w a := by
+    have : ((k : Nat) : Int) < rownnz w a := by omega
+    simpa using this
+  obtain ⟨h1, h2⟩ := h (Int.ofNat k) (by simp) hk'
+  rw [h1, h2]
 
 /-- non-vacuity: three actuators whose rows were allocated in reverse order (addresses 2, 1, 0) against the ascending allocation -/
 example : ∀ k : Int, 0 ≤ k → k < (1 : Int) →
